@@ -43,6 +43,9 @@ type Report struct {
 	Assumptions map[string]bool
 	Notes       []string
 	CheckerCmd  string
+	// Filter, when set, keeps only the obligations of the rules it accepts (a check that borrows single rules of
+	// another check's rule group); unresolved anchors are always kept.
+	Filter func(rule string) bool
 }
 
 func NewReport(prop, tier string) *Report {
@@ -54,6 +57,9 @@ func NewReport(prop, tier string) *Report {
 }
 
 func (r *Report) add(rule, construct, pos, status, detail string) {
+	if r.Filter != nil && rule != "anchor" && !r.Filter(rule) {
+		return
+	}
 	r.Obls = append(r.Obls, Obligation{Rule: rule, Construct: construct, Pos: pos, Status: status, Detail: detail})
 }
 func (r *Report) OK(rule, construct, pos, detail string) {
@@ -84,6 +90,9 @@ func (r *Report) Check(ok bool, rule, construct, pos, okDetail, failDetail strin
 // RequireMin fails when a rule matched fewer instances than were confirmed by
 // reading, so that a rule cannot pass vacuously.
 func (r *Report) RequireMin(rule, what string, got, min int) {
+	if r.Filter != nil && !r.Filter(rule) {
+		return
+	}
 	r.Counts[rule+":"+what] = got
 	if got < min {
 		r.Fail(rule, "instance-count:"+what, "-", fmt.Sprintf("rule matched %d instances of %s, expected at least %d (confirmed by reading): the rule would pass vacuously", got, what, min))
